@@ -1,4 +1,5 @@
 import BU.Properties.C09
+import BU.Properties.C09_Gen
 #print axioms C09.wif_prefixes
 #print axioms C09.wif_roundtrip
 #print axioms C09.wif_standard_form
@@ -9,3 +10,11 @@ import BU.Properties.C09
 #print axioms C09.sec_roundtrip
 #print axioms C09.offcurve_rejected
 #print axioms C09.sec_roundtrip_unconditional
+#print axioms C09Gen.sliceL_dropLast
+#print axioms C09Gen.sliceFromL_last
+#print axioms C09Gen.slice_take
+#print axioms C09Gen.slice_from1
+#print axioms C09Gen.gen_from_wif
+#print axioms C09Gen.gen_to_wif
+#print axioms C09Gen.gen_wif_roundtrip
+#print axioms C09Gen.gen_wif_rejects
